@@ -47,8 +47,6 @@ Definition genuine (c : vcase) : bool :=
   end.
 
 (* ---- C01 ---- *)
-Definition names_of (ai : attr_info) : list string :=
-  opt_list (ai_name ai) ++ match ai_names ai with Some ns => ns | None => [] end.
 Definition reveals (sp : subproof) (n : string) : bool := mem (cv n) (keys (sp_revealed sp)).
 Definition holds_attr (sp : subproof) (n : string) : bool := mem (cv n) (src_attrs (sp_src sp)).
 Definition proves_pred (sp : subproof) (pi : pred_info) : bool :=
